@@ -83,6 +83,51 @@ def _attack(an, body, inst, cj, path, counter):
                 _attack(an, r["decl"]["body"], v, cj, f"{path}.{n}", counter)
 
 
+class _View:
+    """A read-only sequence view over a list the caller keeps (a Sequence, not a MutableSequence)."""
+
+    def __init__(self, backing):
+        self._b = backing
+
+    def __len__(self):
+        return len(self._b)
+
+    def __getitem__(self, i):
+        return self._b[i]
+
+    def __iter__(self):
+        return iter(list(self._b))
+
+
+import collections.abc as _abc
+_abc.Sequence.register(_View)
+
+
+def _snapshot(an, body, inst):
+    """Every public value reachable from inst (identity of leaves, recursively), incl. byte_size."""
+    out = [("byte_size", inst.byte_size)]
+    for n, ins, kind in spec.body_members(body):
+        v = getattr(inst, n)
+        if v is None:
+            out.append((n, None))
+        elif kind == "case_data":
+            case = next(c for c in ins["cases"] if spec.case_class_name(ins, c) == type(v).__name__)
+            out.append((n, id(v), _snapshot(an, case["body"], v)))
+        elif kind == "array":
+            r = an.resolve(ins["type"])
+            if r["kind"] == "struct":
+                out.append((n, tuple((id(e), tuple(_snapshot(an, r["decl"]["body"], e))) for e in v)))
+            else:
+                out.append((n, tuple(v)))
+        else:
+            r = an.resolve(ins["type"])
+            if r["kind"] == "struct":
+                out.append((n, id(v), _snapshot(an, r["decl"]["body"], v)))
+            else:
+                out.append((n, v))
+    return out
+
+
 def _arrays(body, inst, out, path=""):
     for n, ins, kind in spec.body_members(body):
         if kind == "array" and getattr(inst, n) is not None:
@@ -130,6 +175,26 @@ def check_case(case, res=None):
                 bg = _serialize(s, cls, inst_gen, it["mode"])
                 if b0 != bg:
                     raise Violation("generator_argument_snapshot", cj, b0, bg)
+                # other kinds of iterables the caller may keep changing: a read-only Sequence view
+                # over a list, and a tuple
+                backing = {k: list(v) for k, v in owned.items()}
+                kw_view = dict(kw)
+                for k in owned:
+                    kw_view[k] = _View(backing[k]) if len(backing[k]) % 2 == 0 else tuple(backing[k])
+                try:
+                    inst_view = cls(**kw_view)
+                except Exception as e:  # noqa
+                    raise Violation("array_argument_any_iterable", cj, "instance", f"{type(e).__name__}: {e}")
+                for k in owned:
+                    if type(getattr(inst_view, k)) is not tuple:
+                        raise Violation("array_member_is_tuple", cj, "tuple", type(getattr(inst_view, k)).__name__,
+                                        f"{k} built from a read-only sequence view")
+                for k in owned:
+                    backing[k].append(None)
+                    backing[k][:] = [None] * (len(backing[k]) + 1)
+                bv = _serialize(s, cls, inst_view, it["mode"])
+                if bv != b0:
+                    raise Violation("array_unaffected_by_caller_mutation", cj, b0, bv, "sequence view over a mutated list")
                 snapshot = {k: tuple(getattr(inst, k)) for k in owned}
                 for k, lst in owned.items():
                     if type(getattr(inst, k)) is not tuple:
@@ -162,6 +227,26 @@ def check_case(case, res=None):
                     except Exception:  # noqa: C03's business
                         inst2 = None
                     if inst2 is not None:
+                        # a snapshot stays a snapshot: later (de)serialisations of OTHER data through the
+                        # same class must not change anything reachable from an instance handed out earlier
+                        snap = _snapshot(an, c["body"], inst2)
+                        raw = bytes.fromhex(b0)
+                        for other in (raw, raw + b"\x05\x06\x07", raw[: max(0, len(raw) - 1)], b""):
+                            try:
+                                if Interp(an).deserialize(c["body"], other, c["lex"], it["mode"])[0] == "ok":
+                                    cls.deserialize(s.reader(other, chunked=it["mode"]))
+                            except (Huge, Unspecified):
+                                pass
+                            except Exception:  # noqa: C03's business
+                                pass
+                        try:
+                            s.builder.build(cls, c["body"], obj)
+                        except Exception:  # noqa
+                            pass
+                        if _snapshot(an, c["body"], inst2) != snap:
+                            raise Violation("instance_unchanged_by_later_calls", cj, repr(snap)[:200],
+                                            repr(_snapshot(an, c["body"], inst2))[:200],
+                                            "a deserialised instance changed after other data was deserialised")
                         d0 = _serialize(s, cls, inst2, it["mode"])
                         _attack(an, c["body"], inst2, cj, ".".join(it["cls"]) + "(deserialized)", counter)
                         d1 = _serialize(s, cls, inst2, it["mode"])
